@@ -11,13 +11,16 @@ tree (`C14_nostrip_differs`); (iv) composed with C03 at model level: the two par
 re-indented version, made with a stripping parser, get the empty script in all three match modes
 (`C14_stripped_reindent_empty_script`), and made with a non-stripping parser they get a non-empty one whenever the
 indentation of the root element actually changed (`C14_unstripped_reindent_nonempty_script`).  On the real code the
-property is decided per run by unit U10 / the C14 oracle over the formatter x flag table; the XML formatter's
-markup-free output is part of that oracle only.  libxml2's blank-node heuristic itself is modelled
+property is decided per run by unit U10 / the C14 oracle over the formatter x flag table; (v) the XML formatter
+(model, engine inside, no text tags) on the two stripped parses returns the left parse itself, which carries no
+markup (`C14_xml_formatter_markup_free`: composition of (iv) with `Fin.no_spurious_mark`) - on the real formatter
+the markup-free output is decided by the oracle.  libxml2's blank-node heuristic itself is modelled
 (Model/Blank.lean) and compared with the parser on every run.
 -/
 import XmlDiffModel.Proofs.Blank
 import XmlDiffModel.Model.Api
 import XmlDiffModel.Props.C01
+import XmlDiffModel.Proofs.NoUnmarked
 
 namespace XmlDiffModel
 
@@ -89,6 +92,26 @@ theorem C14_stripped_reindent_empty_script (qn : QName) (cfg : Cfg) (sim : Sim) 
   rw [C14_strip_reindent ws hws T hsep] at hLv
   have heq := beqVal_docEq cfg.ignored L R _ hLv hRv
   exact C03_equal_documents_empty_script qn cfg L R fresh sim hF0 hF1 hL hR heq (hs heq) (hf heq)
+
+/-- The XML formatter on the two stripped parses: the script is empty, the handlers have nothing to do, and `finalize`
+returns the left parse itself - no `diff:` attribute, no wrapper element (left parse free of private-use characters and
+of elements tagged `diff:insert` / `diff:delete`). -/
+theorem C14_xml_formatter_markup_free (bis : Dmp.Bisect) (qn : QName) (cfg : Cfg) (sim : Sim) (fresh : Nat)
+    (ft : List Str) (w : Bool)
+    (ws : Nat → Str) (hws : ∀ d, isBlank (some (ws d)) = true) (T L R : Tree) (hsep : SepContent T = true)
+    (hLv : Tree.beqVal L (setTail none (stripBlank (reindent ws 0 T))) = true)
+    (hRv : Tree.beqVal R (setTail none (stripBlank T)) = true)
+    (hF0 : 0 < cfg.F) (hF1 : cfg.F ≤ Score.one) (hL : L.WF) (hR : R.WF)
+    (hclean : Acc.CleanT L) (htag : Names.AllP Fin.TagOK L)
+    (hs : Chw.docEq cfg.ignored L R → EqM.SimOK sim (postNodes L).dropLast (postNodes R).dropLast)
+    (hf : Chw.docEq cfg.ignored L R → cfg.fastMatch = true →
+      EqM.FastOK cfg sim (postNodes L).dropLast (postNodes R).dropLast) :
+    scriptGen qn cfg L R (matchNodes cfg sim L R) fresh = .ok ([], L) ∧
+      Acc.runFmtE w bis qn (Along.fstate0 L fresh ft [] w) [] = .ok (Along.fstate0 L fresh ft [] w) ∧
+      (∃ N, ∀ f, N ≤ f → undoElement f (Along.fstate0 L fresh ft [] w).ph diffElemList L = .ok (L, [])) ∧
+      Fin.MarkupFree L :=
+  ⟨C14_stripped_reindent_empty_script qn cfg sim fresh ws hws T L R hsep hLv hRv hF0 hF1 hL hR hs hf,
+    Fin.no_spurious_mark bis qn L fresh ft w hclean htag⟩
 
 /-- Without stripping (`WS_NONE`, `--keep-whitespace`): if the root element has children and its indentation
 changed, the script is not empty (C01 domain hypotheses as in C03). -/
